@@ -35,6 +35,7 @@ def main(tier):
     chk.run("R-COPY", C.copy_rule, cx.cpp, cx.templates, floor=6)
     chk.run("R-WIDTHS", lambda: cx.widths, floor=3000)
     chk.run("R-COMMSYM", BR.commsym, cx.repo, floor=2)
+    chk.run("R-MODCOMBINE", BR.modcombine, cx.repo, floor=4)
     chk.run("R-GATE", P.gate, cx.repo, cx.schema, cx.sites, floor=4)
     chk.run("R-INTRANGE", RG.intrange, cx.repo, floor=190)
     chk.run("R-INTERMEDIATE", RG.intermediate, cx.repo, floor=2)
